@@ -437,7 +437,10 @@ def floors(counters, tier, extra):
         if counters.get("feature." + f, 0) < need // 2:
             out.append("dialect feature %s in only %d texts" % (f, counters.get("feature." + f, 0)))
     for op in JSON_MUTATIONS:
-        if counters.get("mutation.json." + op, 0) < (need // 2 if op not in ("unwrap_array",) else 1):
+        # unwrap_array needs a corpus file with a one-element array as attribute value: 0-2 of the files drawn per run (the dialect
+        # generator produces that feature on its own, see feature.json.singleton_value_array); value_kind applies to about a fifth
+        floor = 0 if op == "unwrap_array" else (need // 4 if op == "value_kind" else need // 2)
+        if counters.get("mutation.json." + op, 0) < floor:
             out.append("JSON mutation %s applied only %d times" % (op, counters.get("mutation.json." + op, 0)))
     for op in XML_MUTATIONS:
         if counters.get("mutation.xml." + op, 0) < need // 4:
